@@ -66,7 +66,7 @@ def _is_sweep(ctx, fi, loop):
     if not isinstance(loop, ast.For):
         return False
     has_test = any(isinstance(n, ast.Call) and isinstance(n.func, ast.Attribute) and n.func.attr == "is_allowed_child" for n in ast.walk(loop))
-    has_rm = any(isinstance(n, ast.Call) and _resolves_to(ctx, fi, n, NODE_Q + ".remove_child") for n in ast.walk(loop))
+    has_rm = any(any(x is d for x in ast.walk(loop)) for (d, _p, _h) in discard_sites(ctx, fi))
     return has_test and has_rm
 
 
